@@ -144,6 +144,7 @@ inline int run_main(const Options& o, const std::string& prop_id, const std::vec
     Stats st; st.prop = prop_id; st.name = p.name;
     st.notes["mode"] = iso ? "isolated (fork per case)" : "inline";
     bool failed_once = false;
+    long shrink_attempts = 0; const long shrink_budget = o.getl("shrink-budget", 600);
     std::string replay_path = o.replay_dir + "/" + p.name + ".case";
     rc::detail::TestParams tp;
     tp.seed = o.seed ^ mix64(std::hash<std::string>()(p.name));
@@ -166,6 +167,8 @@ inline int run_main(const Options& o, const std::string& prop_id, const std::vec
     rc::detail::Property property = iso
       ? rc::detail::toProperty([&]() {
           std::vector<uint64_t> words = *rc::gen::container<std::vector<uint64_t>>(p.words, rc::gen::arbitrary<uint64_t>());
+          // every shrink attempt costs a fork; bound the effort (the smallest failing case found so far stays on disk)
+          if (failed_once && ++shrink_attempts > shrink_budget) return;
           Stats* sp = failed_once ? nullptr : &st;
           size_t consumed = words.size();
           CaseResult r = run_isolated(p, words, sp, consumed);
